@@ -167,4 +167,27 @@ theorem handleRewrite_ok : ∀ (gs : List Group) (final : List Frag) (next : Nat
     refine ⟨final', ?_, hv.trans hvis, hnd⟩
     simp only [handleRewrite, happ, hrec]
 
+theorem flatMap_sublist {α β : Type} (f : α → List β) : ∀ {a b : List α}, a.Sublist b → (a.flatMap f).Sublist (b.flatMap f)
+  | _, _, .slnil => List.Sublist.refl _
+  | _, _, .cons x h => by
+    simp only [List.flatMap_cons]
+    exact (flatMap_sublist f h).trans (List.sublist_append_right _ _)
+  | _, _, .cons₂ x h => by
+    simp only [List.flatMap_cons]
+    exact List.Sublist.append (List.Sublist.refl _) (flatMap_sublist f h)
+
+theorem commitOk_subset (final : List Frag) (gs gs₀ gs' : List Group) (h : CommitOk final gs)
+    (hsub : gs₀.Sublist gs) (hperm : gs'.Perm gs₀) : CommitOk final gs' := by
+  have hmem : ∀ g ∈ gs', g ∈ gs := fun g hg => hsub.subset (hperm.subset hg)
+  refine ⟨h.nodup, fun g hg => h.nonempty g (hmem g hg), fun g hg => h.sub g (hmem g hg), ?_,
+    fun g hg => h.rows g (hmem g hg), fun g hg => h.newNonzero g (hmem g hg),
+    fun g hg => h.newFresh g (hmem g hg), ?_⟩
+  · have h0 := h.disjoint.sublist hsub
+    refine (hperm.pairwise_iff ?_).mpr h0
+    intro a b hab o ho p hp heq
+    exact hab p hp o ho heq.symm
+  · have h0 := ((flatMap_sublist Group.news hsub).map Frag.id).nodup h.newNodup
+    exact ((hperm.flatMap_right Group.news).map Frag.id).nodup_iff.mpr h0
+
+
 end LanceModel.C13
